@@ -227,6 +227,25 @@ pub fn attr_extra(n: u32, value_len: usize) -> Vec<u8> {
     attribute(&der::oid(&[1, 3, 6, 1, 4, 1, 99_999, n as u64]), &[der::octets(&val)])
 }
 
+/// An unknown attribute whose attrValues SET takes one of the shapes RFC 5652
+/// allows (`SET SIZE (1..MAX) OF AttributeValue`, any type): 0 = one OCTET
+/// STRING, 1 = two OCTET STRINGs, 2 = three values of different types
+/// (INTEGER, UTF8String, SEQUENCE), 3 = one SEQUENCE with nested members,
+/// 4 = NULL and BOOLEAN. Values are written in DER SET OF order.
+pub fn attr_extra_shaped(n: u32, value_len: usize, shape: usize) -> Vec<u8> {
+    let val: Vec<u8> = (0..value_len).map(|i| (i as u32).wrapping_mul(31).wrapping_add(n) as u8).collect();
+    let text: Vec<u8> = (0..value_len.min(40)).map(|i| b'a' + (i % 26) as u8).collect();
+    let oid = der::oid(&[1, 3, 6, 1, 4, 1, 99_999, n as u64]);
+    let values: Vec<Vec<u8>> = match shape % 5 {
+        0 => vec![der::octets(&val)],
+        1 => vec![der::octets(&val), der::octets(&[n as u8, 1, 2, 3])],
+        2 => vec![der::uint_be(&[0x7f, n as u8]), der::tlv(0x0c, &text), der::seq(&[&der::octets(&val)])],
+        3 => vec![der::seq(&[&der::oid(&[1, 2, 840, 113_549, 1, 9, 16, 2, 47]), &der::seq(&[&der::octets(&val), &der::uint_be(&[1])])])],
+        _ => vec![der::tlv(0x05, &[]), der::tlv(0x01, &[0xff])],
+    };
+    der::seq(&[&oid, &der::set_of_sorted(&values)])
+}
+
 /// Like `attr_extra` but the *whole attribute* is exactly `total_len` octets
 /// long. Returns None when no value length produces that size (sizes that
 /// fall into a length-of-length step, and anything below the minimum).
